@@ -1,0 +1,83 @@
+//go:build verif
+
+package set
+
+// Machine-checked contracts for the gowp verifier (/verif). Comment-only; compiled only under the
+// build tag "verif"; declares nothing.
+//
+// Abstract view of a *Set s: the finite set { e | has(s.members, e) }.
+
+//@ type Set
+//@   invariant alloc: this.members != nil
+//@   invariant nonnil: forall e string :: has(this.members, e) ==> this.members[e] != nil
+//@   invariant len: this.length == len(this.members)
+
+//@ func (*Set).Get noalloc props C16
+//@   ensures result == set.members[e]
+//@   modifies nothing
+
+//@ func (*Set).Contains noalloc props C16
+//@   preserves nonnil
+//@   ensures result == has(set.members, e)
+//@   modifies nothing
+
+//@ func (*Set).Cardinality noalloc props C16
+//@   ensures result == set.length
+//@   modifies nothing
+
+//@ func (*Set).Add noalloc props C16,C19
+//@   preserves alloc, nonnil, len
+//@   ensures members: forall x string :: has(set.members, x) <==> (old(has(set.members, x)) || (exists k int :: 0 <= k && k < len(elems) && elems[k] == x))
+//@   ensures count: result == len(set.members) - old(len(set.members))
+//@   modifies set.members[*], set.length
+//@   loop 0
+//@     invariant -1 <= rangeindex && rangeindex < len(elems) && set.members == old(set.members)
+//@     invariant forall x string :: has(set.members, x) <==> (old(has(set.members, x)) || (exists k int :: 0 <= k && k <= rangeindex && elems[k] == x))
+//@     invariant count == len(set.members) - old(len(set.members))
+//@     invariant inv(set, nonnil) && set.length == old(set.length)
+
+//@ func (*Set).Remove noalloc props C16,C19
+//@   preserves alloc, nonnil, len
+//@   ensures members: forall x string :: has(set.members, x) <==> (old(has(set.members, x)) && !(exists k int :: 0 <= k && k < len(elems) && elems[k] == x))
+//@   ensures count: result == old(len(set.members)) - len(set.members)
+//@   modifies set.members[*], set.length
+//@   loop 0
+//@     invariant -1 <= rangeindex && rangeindex < len(elems) && set.members == old(set.members)
+//@     invariant forall x string :: has(set.members, x) <==> (old(has(set.members, x)) && !(exists k int :: 0 <= k && k <= rangeindex && elems[k] == x))
+//@     invariant count == old(len(set.members)) - len(set.members)
+//@     invariant inv(set, nonnil) && set.length == old(set.length)
+
+//@ func NewSet props C16,C13
+//@   ensures fresh(result) && fresh(result.members)
+//@   ensures inv(result, alloc) && inv(result, nonnil) && inv(result, len)
+//@   ensures members: forall x string :: has(result.members, x) <==> (exists k int :: 0 <= k && k < len(elems) && elems[k] == x)
+//@   modifies nothing
+
+//@ func (*Set).GetAll props C16,C13
+//@   ensures complete: forall x string :: has(set.members, x) <==> (exists k int :: 0 <= k && k < len(result) && result[k] == x)
+//@   ensures distinct: forall i int, j int :: 0 <= i && i < j && j < len(result) ==> result[i] != result[j]
+//@   ensures isfresh: result == nil || fresh(result)
+//@   modifies nothing
+//@   loop 0
+//@     invariant forall x string :: seen(x) <==> (exists k int :: 0 <= k && k < len(res) && res[k] == x)
+//@     invariant forall i int, j int :: 0 <= i && i < j && j < len(res) ==> res[i] != res[j]
+//@     invariant res == nil || fresh(res)
+
+//@ func (*Set).Move props C16
+//@   requires destination != nil
+//@   requires unshared: set != destination ==> set.members != destination.members
+//@   preserves alloc, nonnil, len, destination.alloc, destination.nonnil, destination.len
+//@   ensures absent: !old(has(set.members, e)) ==> result == 0 && (forall x string :: has(set.members, x) <==> old(has(set.members, x))) && (forall x string :: has(destination.members, x) <==> old(has(destination.members, x)))
+//@   ensures moved: old(has(set.members, e)) ==> result == 1 && has(destination.members, e) && (set != destination ==> !has(set.members, e))
+//@   ensures othersSrc: forall x string :: x != e ==> (has(set.members, x) <==> old(has(set.members, x)))
+//@   ensures othersDst: forall x string :: x != e ==> (has(destination.members, x) <==> old(has(destination.members, x)))
+//@   ensures same: set == destination ==> (forall x string :: has(set.members, x) <==> old(has(set.members, x)))
+//@   modifies set.members[*], set.length, destination.members[*], destination.length
+
+//@ func (*Set).Subtract props C16,C13
+//@   preserves alloc, nonnil, len
+//@   requires forall i int :: 0 <= i && i < len(others) ==> others[i] != nil
+//@   ensures isfresh: fresh(result) && fresh(result.members)
+//@   ensures wf: inv(result, alloc) && inv(result, nonnil) && inv(result, len)
+//@   ensures members: forall x string :: has(result.members, x) <==> (has(set.members, x) && !(exists i int :: 0 <= i && i < len(others) && has(others[i].members, x)))
+//@   modifies nothing
